@@ -1,5 +1,6 @@
 /- Line-protocol driver for C19 (CCITT G4 model, T.6 encoder specification). -/
 import PdfVerif.Model.Ccitt
+import PdfVerif.Model.CcittStream
 import PdfVerif.Spec.T6
 
 open PdfVerif PdfVerif.Ccitt
@@ -39,12 +40,54 @@ def showRes : Except Err (List UInt8) → String
   | .ok bs => "ok:" ++ hexOrDash bs
   | .error .invalidData => "EXC:InvalidData"
   | .error .valueError => "EXC:PDFValueError"
+  | .error .notImplemented => "EXC:PDFNotImplementedError"
   | .error .unmodelled => "unmodelled"
 
 def optInt (s : String) : Option (Option Int) :=
   if s == "n" then some none else (fun i => some i) <$> s.toInt?
 
 def optBool (s : String) : Option Bool := if s == "n" then none else some (s == "1")
+
+/-- Objects of the `sdec` op: `null true false i:<int> n:<name> o [ … ] << k:<key> <obj> … >>`. -/
+partial def parseObj : List String → Option (PObj × List String)
+  | "null" :: r => some (.null, r)
+  | "true" :: r => some (.bool true, r)
+  | "false" :: r => some (.bool false, r)
+  | "o" :: r => some (.other, r)
+  | "[" :: r =>
+    let rec items (acc : List PObj) : List String → Option (PObj × List String)
+      | "]" :: r => some (.arr acc.reverse, r)
+      | ts => match parseObj ts with
+        | some (o, r) => items (o :: acc) r
+        | none => none
+    items [] r
+  | "<<" :: r =>
+    let rec entries (acc : List (String × PObj)) : List String → Option (PObj × List String)
+      | ">>" :: r => some (.dict acc.reverse, r)
+      | k :: ts =>
+        if k.startsWith "k:" then
+          match parseObj ts with
+          | some (o, r) => entries ((k.drop 2 |>.toString, o) :: acc) r
+          | none => none
+        else none
+      | [] => none
+    entries [] r
+  | t :: r =>
+    if t.startsWith "i:" then (fun i => (PObj.int i, r)) <$> (t.drop 2).toString.toInt?
+    else if t.startsWith "n:" then some (.name (t.drop 2).toString, r)
+    else none
+  | [] => none
+
+/-- Filters other than CCITTFaxDecode that the harness puts in front of it (glue of this driver,
+not part of the model): ASCIIHexDecode of plain hex digits ending in `>`, and the pass-through ones. -/
+def otherFilter (n : String) (data : List UInt8) : Except Err (List UInt8) :=
+  if n == "ASCIIHexDecode" || n == "AHx" then
+    let cs := (data.map fun b => Char.ofNat b.toNat).takeWhile (· != '>')
+    match bytesOfHexChars cs with
+    | some bs => .ok bs
+    | none => .error .unmodelled
+  else if n == "DCTDecode" || n == "DCT" || n == "JBIG2Decode" || n == "JPXDecode" then .ok data
+  else .error .unmodelled
 
 def step (line : String) : String :=
   match words line with
@@ -70,6 +113,10 @@ def step (line : String) : String :=
       let dec := ccittfaxdecodeParams p enc
       hexOrDash enc ++ " " ++ showRes dec ++ " " ++ hexOrDash (Spec.T6.packImage rev rows)
     | none => "bad-op"
+  | "sdec" :: hex :: toks =>
+    match bytesOfHex hex, parseObj toks with
+    | some data, some (.dict attrs, []) => showRes (streamDecode otherFilter attrs data)
+    | _, _ => "bad-op"
   | ["dec", k, cols, align, rev, hex] =>
     match optInt k, optInt cols, bytesOfHex hex with
     | some k, some cols, some data =>
